@@ -1,7 +1,15 @@
 def install(world):
-    from . import tracker, dest
-    for mod in (tracker, dest):
+    import importlib
+    for name in MODULES:
+        mod = importlib.import_module(f"contracts.{name}")
         for c in mod.CONTRACTS:
-            world.contracts[c.fq] = c
-            if c.modular:
+            if c.key in world.contracts:
+                raise RuntimeError(f"duplicate contract {c.key}")
+            world.contracts[c.key] = c
+            if c.call_default and not c.no_call_summary:
+                world.call_contracts[c.fq] = c
+            if c.modular and c.call_default:
                 world.modular.add(c.fq)
+
+
+MODULES = ["tracker", "dest"]
